@@ -232,6 +232,18 @@ def run(ck: Check):
     n = ck.n(48, 800)
     scs = [conssim.gen_scenario(rng, i) for i in range(n)]
     scs += gate_error_scenarios(500000)
+    # pattern subscription: a matching topic is created at run time, the members revoke and re-join on their own
+    for j, at in enumerate([0.6, 1.45, 1.6, 2.4]):
+        cons = [{"name": f"c{i}", "group": "g", "topics": ["t0", "t1"], "pattern": "^t[01]$", "assignors": [["range"], ["sticky"]][j % 2],
+                 "auto_commit": True, "auto_commit_interval_ms": 300, "cb_delay": [0.01, 0.2][j % 2], "metadata_max_age_ms": 300,
+                 "listener_kind": "async",
+                 "program": [["sleep", [0.0, 1.5][i]], ["start"], ["consume", 8.0, 0.1, None, 0], ["stop"]]} for i in range(2)]
+        scs.append({"id": 600000 + j, "seed": 600 + j, "brokers": 1, "topics": {"t0": 4},
+                    "preload": {"t0": {"0": 3, "1": 3, "2": 0, "3": 0}}, "consumers": cons,
+                    "cluster_events": [{"at": at, "op": "create_topic", "topic": "t1", "n": 3},
+                                       {"at": at + 1.0, "op": "append", "topic": "t1", "p": 1, "n": 3}],
+                    "faults": {"apis": conssim.GROUP_APIS, "plan": {}}, "coordinator": 0, "max_vtime": 600.0,
+                    "family": "pattern-new-topic"})
     rng_old = random.Random(ck.seed * 7121 + 505)
     scs += [conssim.old_broker(conssim.gen_scenario(rng_old, 700000 + i), rng_old) for i in range(ck.n(18, 200))]
     results = conssim.run_scenarios(scs, timeout=ck.n(900, 3000))
